@@ -118,7 +118,9 @@ def _sub_assets(E, ma, mb):
     if mb is None:
         return ma
     q = z3.If(ma[0] >= mb[0], ma[0] - mb[0], 0)
-    oth = E.fresh("other_left", "bool")
+    # whether untracked assets remain is a FUNCTION of the two bundles (subtracting twice gives the same answer)
+    nil = z3.Const("no_other_assets", E.U)
+    oth = z3.Function("others_left_after_sub", E.U, E.U, z3.BoolSort())(ma[2] if ma[2] is not None else nil, mb[2] if mb[2] is not None else nil)
     E.pc.append(z3.Implies(oth, ma[1]))               # other assets can only remain if the left side had some
     E.pc.append(z3.Implies(z3.And(ma[1], z3.Not(mb[1])), oth))   # and they all remain if the right side has none
     i = E.choose([z3.Or(q > 0, oth), z3.And(q == 0, z3.Not(oth))], "assets left after sub")
@@ -196,9 +198,12 @@ def s_ma_len(E, c, args):
 def s_ma_partial_cmp(E, c, args):
     """MultiAsset::partial_cmp: pointwise order; is_all_zeros(a, b) <=> every asset of a is <= its quantity in b"""
     a, b = ma_parts(E, args[0]), ma_parts(E, args[1])
-    le_ab, le_ba = E.fresh("others_le", "bool"), E.fresh("others_ge", "bool")
-    E.pc.append(z3.Implies(z3.Not(a[1]), le_ab))
-    E.pc.append(z3.Implies(z3.Not(b[1]), le_ba))
+    # the verdict on the untracked assets is a FUNCTION of the two bundles (asking twice gives the same answer)
+    nil = z3.Const("no_other_assets", E.U)
+    le = z3.Function("others_pointwise_le", E.U, E.U, z3.BoolSort())
+    ra, rb = (a[2] if a[2] is not None else nil), (b[2] if b[2] is not None else nil)
+    le_ab = z3.Or(z3.Not(a[1]), le(ra, rb))
+    le_ba = z3.Or(z3.Not(b[1]), le(rb, ra))
     az, bz = z3.And(a[0] <= b[0], le_ab), z3.And(b[0] <= a[0], le_ba)
     i = E.choose([z3.And(az, bz), z3.And(az, z3.Not(bz)), z3.And(z3.Not(az), bz), z3.And(z3.Not(az), z3.Not(bz))], "multiasset order")
     if i == 3:
